@@ -10,6 +10,14 @@ Open Scope string_scope.
 Theorem C20_sites : forall s, In s class_level_stores -> (let '(_, _, _, _, sh) := s in match sh with SSingleStore => true | SPublishThenFill => false end) = true.
 Proof. apply forallb_forall. vm_compute. reflexivity. Qed.
 Print Assumptions C20_sites.
+(* the objects held in those tables (XSDAttribute, XSDTree, XSDElement, XSDGroup instances) fill some of their own fields lazily: EVERY
+   `if self.a is None: ...` of the library that stores self.a does so with ONE store of the final value on every path (or, in a loop,
+   one store of a complete value per iteration): no default-then-overwrite, no fill after publication *)
+Theorem C20_instance_caches : forall s, In s lazy_instance_stores -> (let '(_, _, _, _, sh) := s in match sh with LUnsafe => false | _ => true end) = true.
+Proof. apply forallb_forall. vm_compute. reflexivity. Qed.
+Print Assumptions C20_instance_caches.
+Example C20_instance_caches_nonvacuous : Nat.leb 6 (List.length (filter (fun s => let '(_, _, _, _, sh) := s in match sh with LSingleStore => true | _ => false end) lazy_instance_stores)) = true.
+Proof. vm_compute. reflexivity. Qed.
 Theorem C20_attribute_tables : forall c, In c cache_sites -> snd c = ComputeThenPublish.
 Proof.
   intros c I. assert (E: forallb (fun c => match snd c with ComputeThenPublish => true | _ => false end) cache_sites = true) by (vm_compute; reflexivity).
